@@ -2,8 +2,8 @@
 from analysis.facts import norm
 from analysis.cfg import Cfg
 from analysis.flow import DefUse, backward, find_calls, callee_is, callee_ends, op_local, op_const, bool_branch, variant_arms, field_chain, switch_info
-from analysis.table import PathWalker, describe_val
-from rules.common import need
+from analysis.table import PathWalker, describe_val, switch_test
+from rules.common import need, inl
 
 M = "monitor::Monitor"
 CO = "coroutine::korosensei::Coroutine"
@@ -15,6 +15,7 @@ def handler_rule(run, f, rid):
     b = need(run, rid, f, M + "::start::sigurg_handler")
     if b is None:
         return
+    b = inl(f, b)
     w = PathWalker(b)
     sus = [x for (x, t) in find_calls(b, callee_is(SUS + "::suspend", SUS + "::suspend_with", SUS + "::delay", SUS + "::until"))]
     if not sus:
@@ -134,23 +135,20 @@ def overdue_rule(run, f, rid):
     if len(pk) == 1:
         x, t = pk[0]
         for blk in b.blocks:
-            if blk["term"]["k"] != "switch":
+            st = switch_test(b, du, blk["id"])
+            if not st or st[0][0] != "cmp" or st[0][1] not in ("Lt", "Le"):
                 continue
-            dl = op_local(blk["term"]["discr"])
-            ds = du.defs.get(dl, []) if dl is not None else []
-            if len(ds) == 1 and ds[0][2] == "assign" and ds[0][3]["rhs"]["k"] == "binop" and ds[0][3]["rhs"]["op"] in ("Lt", "Gt", "Le", "Ge"):
-                rv = ds[0][3]["rhs"]
-                a, c = describe_val(b, du, rv["a"]), describe_val(b, du, rv["b"])
-                now_a, now_c = a[0] == "call" and a[1] == "common::now", c[0] == "call" and c[1] == "common::now"
-                ts_a, ts_c = "timestamp" in repr(a), "timestamp" in repr(c)
-                notdue_true = (rv["op"] == "Lt" and now_a and ts_c) or (rv["op"] == "Gt" and ts_a and now_c)
-                due_true = (rv["op"] == "Ge" and now_a and ts_c) or (rv["op"] == "Le" and ts_a and now_c)
-                if notdue_true or due_true:
-                    br = bool_branch(b, cfg, du, dl, [blk["id"]])
-                    if br:
-                        due_bb = br[1] if notdue_true else br[0]
-                        ok = cfg.dominates(due_bb, x)
-                        why = "pthread_kill dominated by the overdue edge: %s" % ok
+            (_c, op, a, c), holds, fails = st
+            is_now = lambda v: v[0] == "call" and v[1] == "common::now"
+            is_ts = lambda v: "timestamp" in repr(v) and "common::now" not in repr(v)
+            due_bb = None
+            if is_ts(a) and is_now(c):        # timestamp < / <= now: the deadline has passed on the edge where it holds
+                due_bb = holds
+            elif is_now(a) and is_ts(c):      # now < / <= timestamp: not yet due on the edge where it holds
+                due_bb = fails
+            if due_bb is not None and cfg.dominates(due_bb, x) and holds != fails:
+                ok = True
+                why = "pthread_kill dominated by the overdue edge"
         tgt = repr(describe_val(b, du, t["args"][0]))
         sig = repr(describe_val(b, du, t["args"][1]))
         if ok and not ("pthread" in tgt and "SIGURG" in sig):
